@@ -27,11 +27,11 @@ class C06(DiffProp):
     rule = ("states = programs whose default run is correct; transitions = (program, option vector) executions; quick: "
             "d<=2 (46 vectors) + the all-on vector, thorough: all 512 vectors on small families and d<=3 on the rest; "
             "plus the 2 alternative spellings of every evidence statement")
-    families = {"quick": [("F1.3e", 48), ("F1.1dup", 8), ("FLEX", 10), ("F3.1", 48), ("F2.2", 16), ("F1.3s", 48), ("F1.1", 4)],
-                "thorough": [("F3.2", 192), ("F2.3", 64), ("F1.3s", 64), ("F1.2", 128), ("F3.1", 48), ("F2.2", 16), ("F1.1", 4)]}
+    families = {"quick": [("FDUP", 4), ("F1.3e", 48), ("F1.1dup", 8), ("FLEX", 10), ("F3.1", 48), ("F2.2", 16), ("F1.3s", 48), ("F1.1", 4)],
+                "thorough": [("FDUP", 4), ("F1.3e", 48), ("F1.1dup", 8), ("FLEX", 10), ("F3.2", 192), ("F2.3", 64), ("F1.3s", 64), ("F1.2", 128), ("F3.1", 48), ("F2.2", 16), ("F1.1", 4)]}
     # deviation bound per (tier, family); 9 = all 512 vectors
-    maxdev = {"quick": {"F1.3e": 1, "F1.1dup": 9, "FLEX": 9, "F3.1": 2, "F2.2": 2, "F1.3s": 1, "F1.1": 9},
-              "thorough": {"F3.2": 2, "F2.3": 2, "F1.3s": 2, "F1.2": 1, "F3.1": 9, "F2.2": 9, "F1.1": 9}}
+    maxdev = {"quick": {"FDUP": 2, "F1.3e": 1, "F1.1dup": 9, "FLEX": 9, "F3.1": 2, "F2.2": 2, "F1.3s": 1, "F1.1": 9},
+              "thorough": {"FDUP": 9, "F1.3e": 2, "F1.1dup": 9, "FLEX": 9, "F3.2": 2, "F2.3": 2, "F1.3s": 2, "F1.2": 1, "F3.1": 9, "F2.2": 9, "F1.1": 9}}
     budget = {"quick": 300, "thorough": 2400}
 
     def filter(self, prog):
